@@ -55,6 +55,11 @@ fn ops() -> Vec<String> {
         "p = o",
         "o.a = o.b",
         "o[\"a b\"] = o[\"a\"]",
+        "o[\"cur\"] = \"a\"",
+        "o[o[\"cur\"]] = K",
+        "o[o.cur] += 1",
+        "print(o[o.cur])",
+        "p[\"a\"] = o[o[\"cur\"]]",
         "o[$\"${ka}\"] = K",
         "o[$\"${ka} b\"] = K",
         "o[ka] = K",
@@ -205,6 +210,24 @@ fn literal_cases(max_entries: usize) -> Vec<Case> {
             let lit = format!("{{{}}}", parts.join(", "));
             let src = format!("{}r := {}\nprint(r)\nfor [k, v] in r {{\nprint(k)\n}}\nprint(r == {})\n", pre, lit, lit);
             out.push(Case::new(src, 500, format!("literal {}", lit)));
+        }
+    }
+    // wide literals: a later entry for the same key replaces an earlier one at every size
+    for n in [5usize, 10, 16, 20, 21, 22, 25, 33, 40, 64, 100] {
+        let keys: Vec<String> = (0..n).map(|i| format!("k{:03}", (i * 7) % n)).collect();
+        for dup in [0usize, 1, n / 2, n - 2, n - 1] {
+            for at in [0usize, n / 3, n - 1] {
+                // key `dup` is written once more at position `at` with a different value
+                let mut parts: Vec<String> = keys.iter().enumerate().map(|(i, k)| format!("\"{}\": {}", k, i)).collect();
+                parts.insert(at, format!("\"{}\": 999", keys[dup]));
+                let lit = format!("{{{}}}", parts.join(", "));
+                out.push(Case::new(format!("r := {}\nprint(r[\"{}\"])\nprint(r)\n", lit, keys[dup]), 500, format!("wide literal {} entries, key {} again at {}", n, dup, at)));
+            }
+        }
+        // spread of a wide object before / after overriding pairs
+        let wide = format!("{{{}}}", keys.iter().enumerate().map(|(i, k)| format!("\"{}\": {}", k, i)).collect::<Vec<_>>().join(", "));
+        for k in [0usize, n / 2, n - 1] {
+            out.push(Case::new(format!("w := {}\nr := {{\"{}\": 999, w..}}\nprint(r[\"{}\"])\ns := {{w.., \"{}\": 999}}\nprint(s[\"{}\"])\nprint(r == w)\nprint(s)\n", wide, keys[k], keys[k], keys[k], keys[k]), 500, format!("wide spread {} entries, override key {}", n, k)));
         }
     }
     // entries that must be rejected
